@@ -80,9 +80,9 @@ Print Assumptions C18_histories_generic.
    number of clients; caches start with arbitrary contents, may be shared by clients, and any entry may
    be rewritten or removed at any point (OCacheSet).  Observations and the final store are those of
    the cache-less run. *)
-Theorem C18_histories : forall m h caches st, sym_intact st -> Forall (fun x => wf_op (snd x)) h ->
-  fst (fst (run_ops digest_check_covers_cached m caches st h)) = fst (fst (run_ops digest_check_covers_cached m [] st (strip h))) /\
-  snd (run_ops digest_check_covers_cached m caches st h) = snd (run_ops digest_check_covers_cached m [] st (strip h)).
+Theorem C18_histories : forall h caches st, sym_intact st -> Forall (fun x => wf_op (snd x)) h ->
+  observations (run_ops digest_check_covers_cached caches st h) = observations (run_ops digest_check_covers_cached [] st (strip h)) /\
+  snd (run_ops digest_check_covers_cached caches st h) = snd (run_ops digest_check_covers_cached [] st (strip h)).
 Proof. exact run_ops_transparent. Qed.
 Print Assumptions C18_histories.
 
@@ -95,17 +95,18 @@ Example C18_empty_store_intact : sym_intact [].
 Proof. intros n t obj H; discriminate H. Qed.
 
 (* a history with a truncated entry, a foreign entry, a stale entry and a shared cache: same observations *)
-Definition demo : list (option nat * op) :=
-  [ (Some 0%nat, OPut (p 1) (sn 1)); (Some 0%nat, OLoad None);
-    (Some 0%nat, OCacheSet (p 1) (Some (Garbage 7)));           (* truncated *)
-    (Some 1%nat, OPut (p 2) (sn 2));
-    (Some 0%nat, OCacheSet (p 2) (Some (sn 1)));                (* another snapshot's bytes *)
-    (Some 0%nat, OLoad None); (Some 1%nat, OLoad (Some [Hash (sn 2)]));
-    (Some 1%nat, ODelete [Hash (sn 1)]);                        (* client 0's entry for p 1 is now stale *)
-    (Some 0%nat, OLoad None); (None, OLoad None) ].
+Definition c0 := (Some 0%nat, Some kr). Definition c1 := (Some 1%nat, Some kr). Definition cn := (@None nat, Some kr).
+Definition demo : list (option nat * mode * op) :=
+  [ (c0, OPut (p 1) (sn 1)); (c0, OLoad None);
+    (c0, OCacheSet (p 1) (Some (Garbage 7)));           (* truncated *)
+    (c1, OPut (p 2) (sn 2));
+    (c0, OCacheSet (p 2) (Some (sn 1)));                (* another snapshot's bytes *)
+    (c0, OLoad None); (c1, OLoad (Some [Hash (sn 2)]));
+    (c1, ODelete [Hash (sn 1)]);                        (* client 0's entry for p 1 is now stale *)
+    (c0, OLoad None); (cn, OLoad None) ].
 
 Example C18_demo_runs :
-  fst (fst (run_ops true (Some kr) [[]; []] [] demo))
+  observations (run_ops true [[]; []] [] demo)
   = [ (0, []); (0, [(Hash (sn 1), true)]); (0, []); (0, []); (0, []);
       (0, [(Hash (sn 2), true); (Hash (sn 1), true)]); (0, [(Hash (sn 2), true)]); (0, []);
       (0, [(Hash (sn 2), true)]); (0, [(Hash (sn 2), true)]) ]%N
